@@ -274,6 +274,7 @@ class Run:
         self.control_errors = []      # (order, message) of every refusal by a control
         self.settled_with = {}        # id(order) -> {(dead-heat count, runner status)} it was settled with, per close
         self._last_error = None
+        self.foreign = 0              # requests made through a market other than the order's own
         self.clock_ok = True
 
     # ---- canonical dump
@@ -334,7 +335,8 @@ class Run:
                                          ms(p._time_created), num(p.simulated_delay)) for p in fw.handler_queue) or "."
         E = ",".join(self.events) or "."
         self.events = []
-        return "O %s T %s C %s M %s K %s Q %s E %s" % (O, T, C, M, K, Q, E)
+        # F: requests made through a market other than the order's own (the model's ghost counter `World.foreign`)
+        return "O %s T %s C %s M %s K %s Q %s E %s F %d" % (O, T, C, M, K, Q, E, self.foreign)
 
     def txc(self, client):
         return [c for c in client.trading_controls if c.NAME == "MAX_TRANSACTION_COUNT"][0]
@@ -416,6 +418,8 @@ class Run:
                 return "no-such-order"
             self._last_order = o
             self._last_error = None
+            if o.market_id != market.market_id:
+                self.foreign += 1
             t = state.get("t")
             if k == "place":
                 r = (t.place_order(o, a[2], True, a[3]) if t else market.place_order(o, market_version=a[2], force=a[3]))
